@@ -19,6 +19,8 @@ import check
 
 GEN = ['numeric']
 LEAN_MODULES = ['XfabVerif.Proofs.C18']
+# definitions the hand-written model mirrors (see harness/pins.py): a source change breaks the tie
+PINS = ['xfab/tools.py:reduce_cell', 'xfab/laue.py:reduce_cell']
 LEAN_DRIVER_MODULES = ['XfabVerif.Model.Reduce']
 RULE = ("correspondence: rational metric tensors (denominators <= 16) of kinds reduced / unimodularly transformed / orthogonal / "
         "symmetric (cubic, hexagonal, fcc, bcc, tetragonal: many exact ties) / oblique integer bases / deliberate near-ties, "
